@@ -32,6 +32,8 @@ pub struct Config {
     /// scan a CLONE of the configured sequence (a clone has no spare row capacity: any access past the last
     /// look-ahead row leaves the allocation)
     pub exact: bool,
+    /// spare sequence rows of a hand-built striped sequence (StripedSequence::new); 0 = as striped by the library
+    pub spare: usize,
 }
 
 impl Config {
@@ -47,6 +49,7 @@ impl Config {
             "origin": self.origin,
             "pre_wrap": self.pre_wrap,
             "exact_capacity_clone": self.exact,
+            "spare_rows": self.spare,
         })
     }
     pub fn from_json(v: &Value) -> Config {
@@ -63,6 +66,7 @@ impl Config {
             origin: v["origin"].as_str().unwrap_or("").into(),
             pre_wrap: v["pre_wrap"].as_u64().map(|x| x as usize),
             exact: v["exact_capacity_clone"].as_bool().unwrap_or(false),
+            spare: v["spare_rows"].as_u64().unwrap_or(0) as usize,
         }
     }
 }
@@ -105,9 +109,15 @@ pub enum After {
     Exhaust,
     /// k × next(), then max()
     Max(usize),
+    /// k × next(), then `threshold(t2)` on the SAME scanner, then next() to exhaustion
+    Rethreshold(usize, f32),
 }
 
 pub struct RunOut {
+    /// hits yielded after the threshold was changed (`After::Rethreshold` only)
+    pub post: Vec<(usize, f32)>,
+    /// the first phase of `After::Rethreshold` ran into None
+    pub pre_exhausted: bool,
     pub hits: Vec<(usize, f32)>,
     pub extra_after_none: usize,
     pub max: Option<Option<(usize, f32)>>,
@@ -119,7 +129,7 @@ pub fn run_scanner(cfg: &Config, after: &After) -> Result<RunOut, String> {
         with_arm(cfg.arm, || {
             let pssm = model::scoring::<Dna>(&cfg.matrix);
             let syms = model::to_symbols::<Dna>(&cfg.seq);
-            let mut striped: StripedSequence<Dna, U32> = Pipeline::<Dna, Dispatch>::dispatch().stripe(&syms);
+            let mut striped: StripedSequence<Dna, U32> = cfgs::respread(Pipeline::<Dna, Dispatch>::dispatch().stripe(&syms), &syms, cfg.spare);
             if let Some(w) = cfg.pre_wrap {
                 striped.configure_wrap(w);
             }
@@ -130,7 +140,7 @@ pub fn run_scanner(cfg: &Config, after: &After) -> Result<RunOut, String> {
             let mut sc = Scanner::new(&pssm, &striped);
             sc.threshold(cfg.threshold);
             sc.block_size(cfg.block);
-            let mut out = RunOut { hits: Vec::new(), extra_after_none: 0, max: None, calls: 0 };
+            let mut out = RunOut { post: Vec::new(), pre_exhausted: false, hits: Vec::new(), extra_after_none: 0, max: None, calls: 0 };
             match after {
                 After::Exhaust => {
                     let horizon = cfg.seq.len() + 3;
@@ -153,6 +163,26 @@ pub fn run_scanner(cfg: &Config, after: &After) -> Result<RunOut, String> {
                         out.calls += 1;
                         if sc.next().is_some() {
                             out.extra_after_none += 1;
+                        }
+                    }
+                }
+                After::Rethreshold(k, t2) => {
+                    for _ in 0..*k {
+                        out.calls += 1;
+                        match sc.next() {
+                            Some(h) => out.hits.push((h.position(), h.score())),
+                            None => {
+                                out.pre_exhausted = true;
+                                break;
+                            }
+                        }
+                    }
+                    sc.threshold(*t2);
+                    for _ in 0..cfg.seq.len() + 3 {
+                        out.calls += 1;
+                        match sc.next() {
+                            Some(h) => out.post.push((h.position(), h.score())),
+                            None => break,
                         }
                     }
                 }
@@ -202,6 +232,65 @@ pub fn judge_hits(cfg: &Config, or: &Oracle, out: &RunOut) -> Result<(), (String
     for p in 0..valid {
         if !seen[p] && or.must(p, cfg.threshold) == Some(true) {
             return Err(("missed hit".into(), format!("position {} scores {} >= threshold {} but was not yielded (L={}, M={}, block={})", p, or.exact[p].0, cfg.threshold, cfg.seq.len(), or.m, cfg.block)));
+        }
+    }
+    Ok(())
+}
+
+/// Oracle for `threshold(t1) . next^k . threshold(t2) . next*`: the blocks after the block of the last hit
+/// yielded before the change had not been scored when the threshold changed (the scanner scores a block only
+/// when its hit buffer is empty), so every position of those blocks meeting t2 must be yielded; nothing yielded
+/// may be below min(t1, t2), nothing in those later blocks below t2, nothing twice.
+pub fn judge_rethreshold(cfg: &Config, or: &Oracle, out: &RunOut, k: usize, t2: f32) -> Result<(), (String, String)> {
+    let valid = or.exact.len();
+    let l = cfg.seq.len();
+    let r = (l + 31) / 32;
+    let t1 = cfg.threshold;
+    let tmin = t1.min(t2);
+    let mut seen = vec![false; valid];
+    for (phase, list) in [(0, &out.hits), (1, &out.post)] {
+        for &(p, s) in list.iter() {
+            if p >= valid {
+                return Err(("position out of range".into(), format!("hit at position {} but the last valid position is {}", p, valid as i64 - 1)));
+            }
+            if seen[p] {
+                return Err(("duplicate hit".into(), format!("position {} yielded twice", p)));
+            }
+            seen[p] = true;
+            let (ex, ab) = or.exact[p];
+            if !model::score_ok(s, ex, ab, or.m) {
+                return Err(("wrong score".into(), format!("hit at position {} carries score {} but the exact score is {}", p, s, ex)));
+            }
+            let t = if phase == 0 { t1 } else { tmin };
+            if or.must(p, t) == Some(false) {
+                return Err(("hit below threshold".into(), format!("position {} scoring {} yielded with thresholds {} then {}", p, ex, t1, t2)));
+            }
+        }
+    }
+    if out.pre_exhausted {
+        return Ok(());
+    }
+    // first block that was certainly unscored when the threshold changed
+    let first_pending_row = match out.hits.last() {
+        Some(&(p, _)) if k > 0 => ((p % r.max(1)) / cfg.block + 1) * cfg.block,
+        _ => 0,
+    };
+    for p in 0..valid {
+        let row = p % r.max(1);
+        if row < first_pending_row {
+            continue;
+        }
+        if !seen[p] && or.must(p, t2) == Some(true) {
+            return Err((
+                "missed hit after threshold change".into(),
+                format!(
+                    "threshold {} -> {} after {} hit(s): position {} (row {}, in a block not yet scored at the change) scores {} >= {} but was not yielded (L={}, M={}, block={})",
+                    t1, t2, k, p, row, or.exact[p].0, t2, l, or.m, cfg.block
+                ),
+            ));
+        }
+        if seen[p] && out.post.iter().any(|h| h.0 == p) && or.must(p, t2) == Some(false) {
+            return Err(("hit below the new threshold".into(), format!("position {} (block scored after the change) scoring {} yielded with threshold {}", p, or.exact[p].0, t2)));
         }
     }
     Ok(())
@@ -486,7 +575,7 @@ fn sweep(mode: Mode, ctx: &mut Ctx, rep: &mut Report) {
                         for si in 0..5u64.pow(l as u32) {
                             let seq = model::nth_word(si, l, 5);
                             let ts = threshold_menu(&matrix, &seq, if ctx.quick() { 4 } else { 8 });
-                            let probe = Config { seq: seq.clone(), matrix: matrix.clone(), threshold: 0.0, block: 1, arm: Forced::Generic, origin: String::new(), pre_wrap: None, exact: false };
+                            let probe = Config { seq: seq.clone(), matrix: matrix.clone(), threshold: 0.0, block: 1, arm: Forced::Generic, origin: String::new(), pre_wrap: None, exact: false, spare: 0 };
                             let or = Oracle::new(&probe);
                             for &t in &ts {
                                 for &block in &[1usize, 256] {
@@ -500,6 +589,7 @@ fn sweep(mode: Mode, ctx: &mut Ctx, rep: &mut Report) {
                                             origin: format!("small L={} seq#{} M={} matrix#{} wild={}", l, si, m, mi, wild),
                                             pre_wrap: None,
                                             exact: false,
+                                            spare: 0,
                                         };
                                         sink.config(&cfg, &or);
                                         if l == 4 && si == 200 && mi == 1 && block == 1 && arm == Forced::Avx2 {
@@ -558,7 +648,7 @@ fn sweep(mode: Mode, ctx: &mut Ctx, rep: &mut Report) {
                         }
                         let matrix = matrix_from_digits(&model::nth_word(mi, m, nrows), wild);
                         let ts = threshold_menu(&matrix, &seq, if big { 3 } else if ctx.quick() { 4 } else { 8 });
-                        let probe = Config { seq: seq.clone(), matrix: matrix.clone(), threshold: 0.0, block: 1, arm: Forced::Generic, origin: String::new(), pre_wrap: None, exact: false };
+                        let probe = Config { seq: seq.clone(), matrix: matrix.clone(), threshold: 0.0, block: 1, arm: Forced::Generic, origin: String::new(), pre_wrap: None, exact: false, spare: 0 };
                         let or = Oracle::new(&probe);
                         let blocks: Vec<usize> = if big { vec![256, 255, 7, 300] } else { BLOCKS.to_vec() };
                         for &t in &ts {
@@ -581,6 +671,8 @@ fn sweep(mode: Mode, ctx: &mut Ctx, rep: &mut Report) {
                                         pre_wrap,
                                         // every third threshold/block combination scans an exact-capacity clone
                                         exact: (block + m) % 3 == 0,
+                                        // every fifth combination scans a hand-built sequence with 2 spare sequence rows
+                                        spare: if (block + 2 * m + l) % 5 == 0 { 2 } else { 0 },
                                     };
                                     sink.config(&cfg, &or);
                                     if l == 70 && pat == 0 && mm == 5 && block == 2 && arm == Forced::Sse2 {
@@ -595,6 +687,75 @@ fn sweep(mode: Mode, ctx: &mut Ctx, rep: &mut Report) {
             if ctx.out_of_time() {
                 sink.rep.cap(format!("shapes: wall-clock cap at L={}", l));
                 break;
+            }
+        }
+    }
+    // ---- threshold changed in the middle of a scan (C02 only) -------------------------------------
+    if mode == Mode::C02 && ctx.wants("rethreshold") {
+        sink.rep.space(
+            "rethreshold",
+            "histories threshold(t1) . next^k . threshold(t2) . next* on ONE scanner: lengths {5,33,70,100,200} x 2 contents x matrices (M in 1..=3, 12 from the menu x wildcard {-inf, row mean}) x block sizes {1,2,3} x ordered pairs (t1,t2) of <= 5 attainable thresholds x k in 0..=6 x 3 dispatcher arms; \
+             oracle: nothing yielded twice or below min(t1,t2); every position of a block not yet scored when the threshold changed that meets t2 is yielded, none of those below t2",
+        );
+        let mats: Vec<(usize, u64)> = vec![(1, 0), (1, 3), (1, 6), (2, 1), (2, 14), (2, 55), (3, 9), (3, 100), (3, 511), (2, 62), (1, 5), (3, 300)];
+        for &l in &[5usize, 33, 70, 100, 200] {
+            for pat in [0usize, 2] {
+                let seq = content(l, pat);
+                for &(m, mi) in &mats {
+                    for wild in [0usize, 2] {
+                        let idx = base;
+                        base += 1;
+                        if !ctx.mine(idx) {
+                            continue;
+                        }
+                        let matrix = matrix_from_digits(&model::nth_word(mi, m, nrows), wild);
+                        let ts = threshold_menu(&matrix, &seq, 3);
+                        let probe = Config { seq: seq.clone(), matrix: matrix.clone(), threshold: 0.0, block: 1, arm: Forced::Generic, origin: String::new(), pre_wrap: None, exact: false, spare: 0 };
+                        let or = Oracle::new(&probe);
+                        for &t1 in ts.iter().take(5) {
+                            for &t2 in ts.iter().take(5) {
+                                if t1 == t2 {
+                                    continue;
+                                }
+                                for &block in &[1usize, 2, 3] {
+                                    for arm in cfgs::FORCED {
+                                        for k in 0..=6usize {
+                                            let cfg = Config {
+                                                seq: seq.clone(),
+                                                matrix: matrix.clone(),
+                                                threshold: t1,
+                                                block,
+                                                arm,
+                                                origin: format!("rethreshold L={} content={} M={} matrix#{} wild={}", l, pat, m, mi, wild),
+                                                pre_wrap: None,
+                                                exact: false,
+                                                spare: 0,
+                                            };
+                                            sink.rep.eval_distinct(!or.exact.is_empty());
+                                            sink.states += 1;
+                                            let js = |cfg: &Config| {
+                                                let mut j = cfg.json();
+                                                j["kind"] = json!("rethreshold");
+                                                j["k"] = json!(k);
+                                                j["threshold2"] = model::f32_to_json(t2);
+                                                j
+                                            };
+                                            match run_scanner(&cfg, &After::Rethreshold(k, t2)) {
+                                                Err(p) => sink.rep.violation(format!("C02 {} rethreshold panic {}", cfgs::arm_name(arm), vx_core::util::panic_class(&p)), format!("panic: {}", p), || js(&cfg)),
+                                                Ok(out) => {
+                                                    sink.transitions += out.calls as u64;
+                                                    if let Err((sig, msg)) = judge_rethreshold(&cfg, &or, &out, k, t2) {
+                                                        sink.rep.violation(format!("C02 {} rethreshold {}", cfgs::arm_name(arm), sig), msg, || js(&cfg));
+                                                    }
+                                                }
+                                            }
+                                        }
+                                    }
+                                }
+                            }
+                        }
+                    }
+                }
             }
         }
     }
@@ -628,7 +789,7 @@ fn sweep(mode: Mode, ctx: &mut Ctx, rep: &mut Report) {
                     r
                 })
                 .collect();
-            let proto = Config { seq, matrix, threshold: 8.0, block: 256, arm: Forced::Avx2, origin: String::new(), pre_wrap: None, exact: false };
+            let proto = Config { seq, matrix, threshold: 8.0, block: 256, arm: Forced::Avx2, origin: String::new(), pre_wrap: None, exact: false, spare: 0 };
             let or = Oracle::new(&proto);
             for &block in &[256usize, 65535, 65536, 65537, 1 << 20] {
                 for arm in cfgs::FORCED {
@@ -666,6 +827,19 @@ pub fn replay_c02(_ctx: &mut Ctx, rep: &mut Report, v: &Value) {
     let cfg = Config::from_json(v);
     let or = Oracle::new(&cfg);
     rep.eval_distinct(true);
+    if v["kind"].as_str() == Some("rethreshold") {
+        let k = v["k"].as_u64().unwrap() as usize;
+        let t2 = model::f32_from_json(&v["threshold2"]);
+        match run_scanner(&cfg, &After::Rethreshold(k, t2)) {
+            Err(p) => rep.violation(format!("C02 {} rethreshold panic {}", cfgs::arm_name(cfg.arm), vx_core::util::panic_class(&p)), format!("panic: {}", p), || cfg.json()),
+            Ok(out) => {
+                if let Err((sig, msg)) = judge_rethreshold(&cfg, &or, &out, k, t2) {
+                    rep.violation(format!("C02 {} rethreshold {}", cfgs::arm_name(cfg.arm), sig), msg, || cfg.json());
+                }
+            }
+        }
+        return;
+    }
     match run_scanner(&cfg, &After::Exhaust) {
         Err(p) => rep.violation(format!("C02 {} panic {}", cfgs::arm_name(cfg.arm), vx_core::util::panic_class(&p)), format!("panic: {}", p), || cfg.json()),
         Ok(out) => {
